@@ -84,6 +84,7 @@ class Walk:
         self.rng, self.dtype = rng, dtype
         self.pool, self.snaps, self.calls, self.log = [], [], [], []
         self.fails = []          # (kind, message, step)
+        self.force = False       # scripted coverage walks: optional arguments (initial guesses) are always given when a candidate exists
     def add(self, o, call):
         self.pool.append(o); self.snaps.append(Snap(o)); self.calls.append(call)
     def pick(self, pred=lambda o: True):
@@ -111,6 +112,15 @@ def do_step(w, op):
     torch, torchtt = _imp()
     rng, dt = w.rng, w.dtype
     P = w.pool
+    if op == "new_family":
+        # float64 objects that fit together (operator M x N, vectors on N and on M, operator N x K, a square operator with its vectors): the iterative
+        # routines of the scripted walks then always find operands AND initial guesses
+        d_ = rng.choice([2, 3]); N_ = [rng.choice([2, 3]) for _ in range(d_)]; M_ = [rng.choice([2, 3]) for _ in range(d_)]; K_ = [rng.choice([1, 2]) for _ in range(d_)]
+        for o in (rand_tt(rng, torch.float64, ttm=True, N=N_, M=M_), rand_tt(rng, torch.float64, N=N_), rand_tt(rng, torch.float64, N=N_), rand_tt(rng, torch.float64, N=M_),
+                  rand_tt(rng, torch.float64, ttm=True, N=K_, M=N_), rand_tt(rng, torch.float64, ttm=True, N=K_, M=M_),
+                  rand_tt(rng, torch.float64, ttm=True, N=N_, M=N_) * 0.1 + torchtt.eye(N_, dtype=torch.float64) * 3.0):
+            w.add(o, "KNew %s" % shlist_coq(o))
+        return "new_family(%s)" % (N_,), None
     if op == "new":
         o = rand_tt(rng, dt, ttm=rng.random() < 0.35)
         w.add(o, "KNew %s" % shlist_coq(o)); return "TT(cores)", None
@@ -380,7 +390,7 @@ def do_step(w, op):
         if not cx: return None
         j = rng.choice(cx)
         cg = [g for g, y in enumerate(P) if not y.is_ttm and list(y.N) == Mof(A) and y.cores[0].dtype == torch.float64]
-        g = rng.choice(cg) if cg and rng.random() < 0.7 else None
+        g = rng.choice(cg) if cg and (w.force or rng.random() < 0.7) else None
         if op == "dmrg": o = A.fast_matvec(P[j], initial=P[g] if g is not None else None, nswp=4, eps=1e-8)
         else: o = torchtt.amen_mv(A, P[j], nswp=4, x0=P[g] if g is not None else None, eps=1e-8)
         w.add(o, "KNew %s" % shlist_coq(o)); return "%s(%d,%d,guess=%s)" % (op, i, j, g), None
@@ -389,7 +399,7 @@ def do_step(w, op):
         if i is None: return None
         x = P[i]
         c = [j for j, y in enumerate(P) if not y.is_ttm and list(y.N) == list(x.N) and y.cores[0].dtype == torch.float64]
-        j, g = rng.choice(c), (rng.choice(c) if rng.random() < 0.7 else None)
+        j, g = rng.choice(c), (rng.choice(c) if (w.force or rng.random() < 0.7) else None)
         o = torchtt.dmrg_hadamard(x, P[j], P[g] if g is not None else None, nswp=4, eps=1e-8)
         w.add(o, "KNew %s" % shlist_coq(o)); return "hadamard(%d,%d,guess=%s)" % (i, j, g), None
     if op == "amen_mm":
@@ -400,7 +410,7 @@ def do_step(w, op):
         if not c: return None
         j = rng.choice(c)
         cg = [g for g, y in enumerate(P) if y.is_ttm and Mof(y) == Mof(A) and list(y.N) == list(P[j].N) and y.cores[0].dtype == torch.float64]
-        g = rng.choice(cg) if cg and rng.random() < 0.7 else None
+        g = rng.choice(cg) if cg and (w.force or rng.random() < 0.7) else None
         o = torchtt.amen_mm(A, P[j], nswp=4, X0=P[g] if g is not None else None, eps=1e-8)
         w.add(o, "KNew %s" % shlist_coq(o)); return "amen_mm(%d,%d,guess=%s)" % (i, j, g), None
     if op == "solve":
@@ -410,7 +420,7 @@ def do_step(w, op):
         A = torchtt.eye([int(n) for n in b.N], dtype=torch.float64) * 3.0 + torchtt.TT([torch.tensor(c, dtype=torch.float64) * 0.1 for c in ttgen.rand_ttm_cores(rng, [int(n) for n in b.N], [int(n) for n in b.N], [1] + [2] * (len(b.N) - 1) + [1])])
         w.add(A, "KNew %s" % shlist_coq(A))
         cg = [g for g, y in enumerate(P) if not y.is_ttm and list(y.N) == list(b.N) and y.cores[0].dtype == torch.float64]
-        g = rng.choice(cg) if rng.random() < 0.7 else None
+        g = rng.choice(cg) if (w.force or rng.random() < 0.7) else None
         o = torchtt.solvers.amen_solve(A, b, x0=P[g] if g is not None else None, nswp=6, eps=1e-6, verbose=False, use_cpp=False)
         w.add(o, "KNew %s" % shlist_coq(o)); return "amen_solve(b=%d,guess=%s)" % (i, g), None
     if op == "divide":
@@ -460,13 +470,13 @@ def coverage_script():
     ops = []
     for o in OPS:
         if o not in ops: ops.append(o)
-    return ["new"] * 8 + ops + ["new"] * 2 + list(reversed(ops))
+    return ["new"] * 6 + ["new_family"] + ops + ["new"] * 2 + ["new_family"] + list(reversed(ops))
 
 def run_walk(seed, length, dtype, script=None):
     """returns (Walk, error or None)"""
     rng = random.Random(seed)
     w = Walk(rng, dtype)
-    if script is not None: length = len(script)
+    if script is not None: length = len(script); w.force = True
     for step in range(length):
         op = script[step] if script is not None else ("new" if step < 2 else rng.choice(OPS))
         try:
